@@ -401,7 +401,7 @@ var mechs = [][]int{{1, 3, 6, 1, 4, 1, 311, 2, 2, 10}, {1, 2, 840, 113554, 1, 2,
 func TestSpnegoLengthsExhaustive(t *testing.T) {
 	s := vf.Begin(t, P, "spnego-lengths-exhaustive")
 	s.SetExhaustive()
-	lo, hi := vf.N(300, 700), 0
+	lo, hi := vf.Size(300, 700), 0
 	_ = hi
 	s.Note("token lengths 0..%d, every length within 40 of 65535 and of the points where nested DER lengths change form (thorough: 0..70000 around each boundary step 1)", lo)
 	vf.Enum(s, func(yield func(tokCase)) {
@@ -409,7 +409,7 @@ func TestSpnegoLengthsExhaustive(t *testing.T) {
 			yield(tokCase{n, byte(n), n % 4, mechs[n%3]})
 		}
 		for _, c := range []int{65535, 65536 - 30, 16384, 32768} {
-			w := vf.N(40, 120)
+			w := vf.Size(40, 120)
 			for d := -w; d <= w; d++ {
 				if c+d > lo {
 					yield(tokCase{c + d, byte(d), (c + d) % 4, mechs[(c+d)%3]})
